@@ -86,6 +86,17 @@ fn handle(parts: &[&str]) -> String {
             }
             format!("ok {}", v.join(" "))
         }
+        "newline_table" => {
+            let mut v = vec![];
+            for c in 0..=0x10FFFFu32 {
+                if let Some(ch) = char::from_u32(c) {
+                    if typst_syntax::is_newline(ch) {
+                        v.push(format!("{:x}", c));
+                    }
+                }
+            }
+            format!("ok {}", v.join(" "))
+        }
         "format" => {
             let s = unhex(parts[1]);
             match Typstyle::new(config(parts[2], parts[3], parts[4])).format_content(s) {
